@@ -450,7 +450,7 @@ func searchG(t *testing.T, depth int, thorough bool, item *int, col *evid.Collec
 					}
 					path := append(append([]string(nil), n.path...), o.Name)
 					if vd.sig != "" {
-						col.Violation(vd.sig, vd.what, replay{Lane: "G", Start: tr.start, Ops: path})
+						col.Violation(vd.sig, "after "+strings.Join(path, " > ")+": "+vd.what, replay{Lane: "G", Start: tr.start, Ops: path})
 						os.RemoveAll(g.dir)
 						continue
 					}
